@@ -14,7 +14,9 @@ RULE = ("values: (i) exhaustive enumeration of all JSON trees with <= 2 nodes (q
         "empty / escape-heavy / NUL / astral / BMP-extreme strings, unpaired surrogates) and 6 keys (empty, unicode, NUL, dotted for "
         "the non-attribute families, 300 characters); (ii) seeded random trees to depth 8 and ~200 nodes. Each value "
         "is stored through every mutating entry point (constructor data=, item and slice assignment, setdefault, "
-        "update as mapping/pairs/kwargs, reset, append, extend, insert, +=, nested-position variants) of each of "
+        "update as mapping/pairs/kwargs, reset, append, extend, insert, +=, nested-position variants, reset repeated "
+        "after an outside rewrite; for the buffered classes also update / reset / item assignment over existing "
+        "content inside obj.buffered and buffer_backend(), judged after the context is left) of each of "
         "the 18 classes, then read back through a *fresh* object on the same resource and, independently, from "
         "the resource itself; both must be strictly equal (same JSON type at every leaf) to the expected plain "
         "content. distinct = (class, entry point, value) triple; non-trivial = every triple.")
@@ -84,14 +86,70 @@ def random_tree(r, depth, keys, budget):
 
 
 DICT_ENTRIES = ["ctor", "setitem", "setdefault", "update_mapping", "update_pairs", "update_kwargs", "reset",
-                "nested_setitem", "nested_append", "reset_over", "update_over"]
+                "nested_setitem", "nested_append", "reset_over", "update_over", "reset_after_outside"]
 LIST_ENTRIES = ["ctor", "setitem", "slice", "append", "extend", "insert", "iadd", "reset", "nested_setitem",
-                "nested_append", "reset_over"]
+                "nested_append", "reset_over", "reset_after_outside"]
+# buffered classes only: the value is stored inside a buffered context (per-object / backend-wide) over existing
+# content; the round trip is judged after the context has been left
+BUFFERED_ENTRIES = ["update_over@obj", "update_over@backend", "reset_over@obj", "setitem_over@backend",
+                    "nested_setitem@obj"]
+
+
+def store_buffered(info, res, entry, value):
+    v = copy.deepcopy(value)
+    what, where = entry.split("@")
+    cls = info.cls()
+    if info.kind == "dict":
+        res.outside_write({"o1": "old", "v": 1, "t": True, "n": {"p": 1}}, bump=False)
+    else:
+        res.outside_write([1, "old", True, {"p": 1}], bump=False)
+    obj = res.new_handle()
+    cm = obj.buffered if where == "obj" else cls.buffer_backend()
+    with cm:
+        obj()
+        if info.kind == "dict":
+            if what == "update_over":
+                obj.update({"v": v, "t": 1})
+                want = {"o1": "old", "v": value, "t": 1, "n": {"p": 1}}
+            elif what == "reset_over":
+                obj.reset({"o1": "old", "v": v, "t": 1.0, "n": {"p": 1}})
+                want = {"o1": "old", "v": value, "t": 1.0, "n": {"p": 1}}
+            elif what == "setitem_over":
+                obj["v"] = v
+                want = {"o1": "old", "v": value, "t": True, "n": {"p": 1}}
+            else:
+                obj["n"]["p"] = v
+                want = {"o1": "old", "v": 1, "t": True, "n": {"p": value}}
+        else:
+            if what == "update_over":
+                obj[0] = v
+                obj[2] = 1
+                want = [value, "old", 1, {"p": 1}]
+            elif what == "reset_over":
+                obj.reset([v, "old", 1.0, {"p": 1}])
+                want = [value, "old", 1.0, {"p": 1}]
+            elif what == "setitem_over":
+                obj[0] = v
+                want = [value, "old", True, {"p": 1}]
+            else:
+                obj[3]["p"] = v
+                want = [1, "old", True, {"p": value}]
+    return want
 
 
 def store(info, res, entry, value):
     """Store ``value`` through ``entry``; returns the expected plain content of the resource."""
     v = copy.deepcopy(value)
+    if "@" in entry:
+        return store_buffered(info, res, entry, value)
+    if entry == "reset_after_outside":
+        # a save that is not preceded by a load (root reset), repeated after someone else rewrote the resource
+        first = {"v": v} if info.kind == "dict" else [v]
+        obj = res.new_handle()
+        obj.reset(copy.deepcopy(first))
+        res.outside_write({"other": 1} if info.kind == "dict" else ["other"])
+        obj.reset(copy.deepcopy(first))
+        return {"v": value} if info.kind == "dict" else [value]
     if info.kind == "dict":
         if entry == "ctor":
             obj = res.new_handle(data={"v": v})
@@ -199,7 +257,7 @@ def run_shard(spec):
     info = catalog.info(spec["cls"])
     out = {"evaluations": 0, "keys": [], "violations": [], "samples": [], "counters": {}, "strata": {}}
     vals = values_for(info, spec["tier"], spec["seed"], spec["piece"], spec["pieces"])
-    entries = DICT_ENTRIES if info.kind == "dict" else LIST_ENTRIES
+    entries = (DICT_ENTRIES if info.kind == "dict" else LIST_ENTRIES) + (BUFFERED_ENTRIES if info.buffered else [])
     scratch = make_scratch()
     keys = set()
     try:
